@@ -679,7 +679,7 @@ func c04RandAgg(r *Rng) *[6]bool {
 }
 
 func runC04(c *Ctx) {
-	c.Res.Rule = "profiles from 9 stack-shape strategies (random, direct/mutual recursion, repeated multi-line location, shared locations, unsymbolized, cancelling ±values, deep, empty) × options grid (Aggregate flags incl. all CLI granularities × noinlines × showcolumns, call_tree, obj/orig names, every sample index, mean); levels: graph.New tables, report.Generate output of text/tree/dot/callgrind/topproto/traces parsed back, pprof CLI output parsed back; expected figures = Lean Spec via pvdrv, correspondence = Lean model of newGraph/newTree. non-trivial = some sample has ≥2 frames and non-zero value (an edge and a cum≠flat entry exist); distinct by canonical profile + options"
+	c.Res.Rule = "profiles from 9 stack-shape strategies (random, direct/mutual recursion, repeated multi-line location, shared locations, unsymbolized, cancelling ±values, deep, empty) × options grid (Aggregate flags incl. all CLI granularities × noinlines × showcolumns, call_tree, obj/orig names, every sample index, mean); levels: graph.New tables, report.Generate output of text/tree/dot/callgrind/topproto/traces parsed back, pprof CLI output parsed back (+ a dedicated stream of 84×scale labelled profiles run with -tagroot/-tagleaf in every CLI format); expected figures = Lean Spec via pvdrv, correspondence = Lean model of newGraph/newTree. non-trivial = some sample has ≥2 frames and non-zero value (an edge and a cum≠flat entry exist); distinct by canonical profile + options"
 	if c.Replay != "" {
 		var cs c04Case
 		if err := c.LoadReplay(&cs); err != nil {
@@ -775,6 +775,55 @@ func runC04(c *Ctx) {
 			cliCases = append(cliCases, cs)
 			c.Res.Count(canon+"cli"+strings.Join(cs.cliArgs("F"), " "), nt)
 			c.Res.Hit("cli-format:" + cs.Format)
+		}
+	}
+	// dedicated -tagroot / -tagleaf stream (own PRNG stream, so the cases above do not move): labelled
+	// profiles, at least one of the two options set, every CLI format; expected figures = Lean Spec on
+	// the profile rewritten by the Lean model of addLabelNodes (theorem tagroot_tagleaf_frames: that is
+	// rootFrames ++ frames ++ leafFrames)
+	if c.Pprof != "" {
+		rt := NewRng(c.Seed ^ 0x7A67)
+		tagFormats := []string{"traces", "tree", "text", "dot", "topproto", "callgrind", "peek"}
+		for i := 0; i < 84*c.Scale; i++ {
+			st := c04Strategies[i%len(c04Strategies)]
+			if st == "empty" {
+				st = "deep"
+			}
+			p := genC04Profile(rt, &c04GenOpts{Strategy: st, Labels: true})
+			cs := &c04Case{Level: "cli", Profile: Canon(p), Format: tagFormats[i%len(tagFormats)],
+				Gran: rt.Pick([]string{"", "functions", "filefunctions", "files", "lines"}), NoInlines: rt.Chance(25),
+				Req: gReq{CallTree: rt.Chance(30), Mean: rt.Chance(20)}}
+			cs.TagRoot = rt.Pick([]string{"k", "req", "k,req", "req,k", "nokey,k", ""})
+			cs.TagLeaf = rt.Pick([]string{"k", "req", "req,k", "k,nokey", ""})
+			if cs.TagRoot == "" && cs.TagLeaf == "" {
+				cs.TagLeaf = "k"
+			}
+			matched := false
+			for _, s := range p.Sample {
+				nz := false
+				for _, v := range s.Value {
+					if v != 0 {
+						nz = true
+					}
+				}
+				for _, k := range strings.Split(cs.TagRoot+","+cs.TagLeaf, ",") {
+					if k != "" && len(s.Label[k]) > 0 && len(s.Location) > 0 && nz {
+						matched = true
+					}
+				}
+			}
+			cliCases = append(cliCases, cs)
+			c.Res.Count(cs.Profile+"cli-tag"+strings.Join(cs.cliArgs("F"), " "), matched)
+			c.Res.Hit("tagstream-format:" + cs.Format)
+			if cs.TagRoot != "" {
+				c.Res.Hit("tagstream:tagroot")
+			}
+			if cs.TagLeaf != "" {
+				c.Res.Hit("tagstream:tagleaf")
+			}
+			if matched {
+				c.Res.Hit("tagstream:some-sample-carries-a-key")
+			}
 		}
 	}
 	// run the pprof processes in parallel, then evaluate sequentially
